@@ -93,19 +93,33 @@ def _worker(args):
     return start, stop, stats, viols, errors
 
 
+def run_replay(mod, spec):
+    """Re-executes a recorded spec. `warmup: n` means: the same script has already run n times in this process
+    (fresh objects each time) - the only way to reproduce, from a fresh interpreter, a defect that lives in
+    process-global state of the library (a module-level cache keyed by the content of the world)."""
+    base = {k: v for k, v in spec.items() if k != "warmup"}
+    for _ in range(int(spec.get("warmup", 0) or 0)):
+        try:
+            mod.replay(json.loads(json.dumps(base)))
+        except Exception:  # noqa
+            pass
+    return mod.replay(json.loads(json.dumps(base)))
+
+
 def replay_file(prop, path):
     mod = importlib.import_module(PROPS[prop])
     with open(path) as f:
         doc = json.load(f)
     spec = doc["spec"] if "spec" in doc else doc
-    res = mod.replay(spec)
+    res = run_replay(mod, spec)
     want = doc.get("violation") or {}
     v = res.find((want.get("clause"), want.get("culprit_kind"))) if want else None
     if v is None:
         v = res.violation
     out = {"reproduced": v is not None, "digest": res.digest}
     if v is not None:
-        out.update({"clause": v.clause, "culprit": v.culprit, "culprit_kind": v.culprit_kind, "detail": v.detail})
+        out.update({"clause": v.clause, "culprit": v.culprit, "culprit_kind": v.culprit_kind, "detail": v.detail,
+                    "violation": v.to_json()})
     print("REPLAY " + json.dumps(out, sort_keys=True, default=str))
     if v is not None:
         from . import findings
@@ -130,7 +144,8 @@ def verify_in_subprocess(prop, path, expect):
         if line.startswith("REPLAY "):
             got = json.loads(line[7:])
             ok = got.get("reproduced") and got.get("clause") == expect["clause"] and \
-                got.get("culprit_kind") == expect["culprit_kind"] and got.get("digest") == expect["digest"]
+                got.get("culprit_kind") == expect["culprit_kind"] and \
+                (expect.get("digest") is None or got.get("digest") == expect["digest"])
             return bool(ok), got
     return False, {"stdout": p.stdout[-2000:], "stderr": p.stderr[-2000:]}
 
@@ -299,37 +314,75 @@ def main(argv=None):
             except Exception:
                 errors.append((idx, "shrinker: " + traceback.format_exc()))
                 small = spec
+        v = None
+        res = None
         try:
             res = mod.replay(json.loads(json.dumps(small)))
+            v = res.find(key)
+            if v is None and small is not spec:
+                small = spec
+                res = mod.replay(json.loads(json.dumps(small)))
+                v = res.find(key)
         except Exception:
             errors.append((idx, "replay of minimised spec raised: " + traceback.format_exc()))
             continue
-        v = res.find(key)
-        if v is None:
-            # fall back to the unminimised execution
-            small = spec
-            res = mod.replay(json.loads(json.dumps(small)))
-            v = res.find(key)
-            if v is None:
-                errors.append((idx, f"violation {key} of run {idx} does not reproduce from its recorded spec"))
+        doc = None
+        path = None
+        if v is not None:
+            vj2 = v.to_json()
+            vj2["digest"] = res.digest
+            doc = {"format": 1, "property": prop, "seed": a.seed, "run": idx, "tier": tier,
+                   "spec": small, "violation": vj2, "shrink_replays": used, "group_size": len(items)}
+            ch = hashlib.sha256(json.dumps([key, small], sort_keys=True).encode()).hexdigest()[:8]
+            os.makedirs(os.path.join(ROOT, "replays"), exist_ok=True)
+            path = os.path.join(ROOT, "replays", f"{prop}-{a.seed}-{idx}-{ch}.json")
+            with open(path, "w") as f:
+                json.dump(doc, f, indent=1, sort_keys=True)
+            ok, got = verify_in_subprocess(prop, path, {"clause": v.clause, "culprit_kind": v.culprit_kind,
+                                                         "digest": res.digest})
+            if not ok:
+                os.remove(path)
+                doc = None
+        if doc is None:
+            # The violation does not reproduce from its own recorded script in a fresh interpreter: what happened in
+            # this process before the run mattered - i.e. the library keeps state across objects (module level,
+            # class level). Try the unminimised script with itself as its own past (warm-up), verified twice in
+            # fresh interpreters; only if that fails too it is a fault of the harness.
+            for warm in (0, 1, 2):
+                cand = dict(spec, warmup=warm) if warm else spec
+                ch = hashlib.sha256(json.dumps([key, cand], sort_keys=True).encode()).hexdigest()[:8]
+                path = os.path.join(ROOT, "replays", f"{prop}-{a.seed}-{idx}-{ch}.json")
+                doc = {"format": 1, "property": prop, "seed": a.seed, "run": idx, "tier": tier, "spec": cand,
+                       "violation": {"clause": key[0], "culprit_kind": key[1]}, "shrink_replays": used,
+                       "group_size": len(items), "note": "not minimised: depends on state the library keeps across objects"}
+                with open(path, "w") as f:
+                    json.dump(doc, f, indent=1, sort_keys=True)
+                ok1, got1 = verify_in_subprocess(prop, path, {"clause": key[0], "culprit_kind": key[1]})
+                ok2, got2 = verify_in_subprocess(prop, path, {"clause": key[0], "culprit_kind": key[1]}) if ok1 else (False, None)
+                if ok1 and ok2 and got1.get("digest") == got2.get("digest") and got1.get("violation"):
+                    doc["violation"] = dict(got1["violation"], digest=got1["digest"])
+                    with open(path, "w") as f:
+                        json.dump(doc, f, indent=1, sort_keys=True)
+                    small = cand
+
+                    class _V:  # what the report lines need
+                        clause, culprit, culprit_kind = got1["clause"], got1["culprit"], got1["culprit_kind"]
+                        detail, outcome = got1["detail"], got1["violation"].get("outcome")
+                    v = _V
+                    break
+                os.remove(path)
+                doc = None
+            if doc is None:
+                errors.append((idx, f"violation {key} of run {idx} does not reproduce from its recorded spec in a fresh "
+                                    f"interpreter, not even with the script itself as warm-up"))
                 continue
-        vj2 = v.to_json()
-        vj2["digest"] = res.digest
-        doc = {"format": 1, "property": prop, "seed": a.seed, "run": idx, "tier": tier,
-               "spec": small, "violation": vj2, "shrink_replays": used, "group_size": len(items)}
         post_entry = findings.find(entries, doc)
-        ch = hashlib.sha256(json.dumps([key, small], sort_keys=True).encode()).hexdigest()[:8]
         is_known = pre_entry is not None and post_entry is not None and pre_entry.get("id") == post_entry.get("id")
-        sub = "replays/known" if is_known else "replays"
-        os.makedirs(os.path.join(ROOT, sub), exist_ok=True)
-        path = os.path.join(ROOT, sub, f"{prop}-{a.seed}-{idx}-{ch}.json")
-        with open(path, "w") as f:
-            json.dump(doc, f, indent=1, sort_keys=True)
-        ok, got = verify_in_subprocess(prop, path, {"clause": v.clause, "culprit_kind": v.culprit_kind,
-                                                     "digest": res.digest})
-        if not ok:
-            errors.append((idx, f"replay file {path} does not reproduce in a fresh interpreter: {got}"))
-            continue
+        if is_known:
+            os.makedirs(os.path.join(ROOT, "replays", "known"), exist_ok=True)
+            kp = os.path.join(ROOT, "replays", "known", os.path.basename(path))
+            os.replace(path, kp)
+            path = kp
         if is_known:
             known_hits[pre_entry["id"]] = known_hits.get(pre_entry["id"], 0) + len(items)
             lines.append(f"KNOWN-FINDING: property={prop} {pre_entry['id']} {pre_entry.get('what', '')} "
